@@ -221,6 +221,29 @@ def apply_directives(body, directives, unit):
                 body.insert(toks[e].end, "\n" + val + "\n")
             continue
         m = re.fullmatch(r"closure(\d+)\.(sig|sigd)(\?)?", key)
+        ma = re.fullmatch(r'closure@"((?:[^"\\]|\\.)*)"\.(sig|sigd)(\?)?', key) if not m else None
+        if ma:
+            # `closure@"anchor".sig`: the first closure that starts at or after the first occurrence of the anchor's tokens —
+            # independent of how many closures come before it (a reordering or an added closure does not shift it)
+            if closures is None:
+                closures = body.closures()
+            apat = [t.text for t in lex(ma.group(1))]
+            pos = None
+            for q in range(body.open, body.close - len(apat) + 1):
+                if [t.text for t in toks[q:q + len(apat)]] == apat:
+                    pos = q
+                    break
+            k = None
+            if pos is not None:
+                for ci, (st_, pe_, bs_, be_) in enumerate(closures):
+                    if st_ >= pos:
+                        k = ci
+                        break
+            if k is None:
+                if ma.group(3):
+                    continue
+                raise LostAnchor(f"{body.qual}: no closure after `{ma.group(1)}`")
+            m = re.fullmatch(r"closure(\d+)\.(sig|sigd)(\?)?", f"closure{k}.{ma.group(2)}")
         if m:
             if closures is None:
                 closures = body.closures()
@@ -349,7 +372,7 @@ def splice(template_path, repo_root, canary=False, quarantine=(), inline=None):
                         raise TemplateError("continuation without directive")
                     directives[-1] = (directives[-1][0], directives[-1][1] + "\n" + d[4:])
                 elif d.startswith("//@"):
-                    m = re.match(r"//@\s*((?:before|after)\s+\"(?:[^\"\\]|\\.)*\"(?:#\d+)?|[\w.*?]+(?:\([^)]*\))?)\s*:(.*)$", d, re.S)
+                    m = re.match(r"//@\s*((?:before|after)\s+\"(?:[^\"\\]|\\.)*\"(?:#\d+)?|closure@\"(?:[^\"\\]|\\.)*\"\.(?:sigd|sig)\??|[\w.*?]+(?:\([^)]*\))?)\s*:(.*)$", d, re.S)
                     if not m:
                         raise TemplateError(f"bad directive line: {d}")
                     directives.append((m.group(1), m.group(2).strip()))
@@ -492,7 +515,7 @@ def splice(template_path, repo_root, canary=False, quarantine=(), inline=None):
                 if d.startswith("//@|"):
                     directives[-1] = (directives[-1][0], directives[-1][1] + "\n" + d[4:])
                 elif d.startswith("//@"):
-                    m = re.match(r"//@\s*((?:before|after)\s+\"(?:[^\"\\]|\\.)*\"(?:#\d+)?|[\w.*?]+(?:\([^)]*\))?)\s*:(.*)$", d, re.S)
+                    m = re.match(r"//@\s*((?:before|after)\s+\"(?:[^\"\\]|\\.)*\"(?:#\d+)?|closure@\"(?:[^\"\\]|\\.)*\"\.(?:sigd|sig)\??|[\w.*?]+(?:\([^)]*\))?)\s*:(.*)$", d, re.S)
                     if not m:
                         raise TemplateError(f"bad directive line: {d}")
                     directives.append((m.group(1), m.group(2).strip()))
